@@ -341,7 +341,7 @@ def gen_module_spec(rng, name, depth=2, nparams=None, full=False, constants='sim
                 p['export'] = f'_x{i}'
             if p['di']['type'] in NUMERIC and not p['readonly'] and rng.random() < 0.5:
                 p['limits'] = rng.choice(['min', 'max', 'minmax', 'limits'])
-            if p['di']['type'] in NUMERIC and not p['readonly'] and rng.random() < 0.25:
+            if p['di']['type'] in NUMERIC and not p['readonly'] and not p['limits'] and rng.random() < 0.3:
                 p['veto'] = dtgen.valid_wire(rng, p['di'])
             p['unchanged'] = rng.choice(['default', 'default', 'always', 'never', 0.5])
         spec['params'].append(p)
